@@ -754,11 +754,13 @@ def handle (op : String) (j : Json) : R Json := do
     -- the implementation's own flag says
     let mut closedBySpec : List Nat := []
     for s in steps do
-      let after ← nats s "win"
       -- `wb`: the window just before this call when another owner's call changed it in between
       match ← opt s "wb" (fun a => do (← asArr a).mapM asNat) with
       | some b => before := b
       | none => pure ()
+      -- the window after the call; absent = unchanged (long views: most calls do not write)
+      let after ← (do match ← opt s "win" (fun a => do (← asArr a).mapM asNat) with
+                      | some a => pure a | none => pure before : R (List Nat))
       let op ← opOfJson (← field s "op")
       let pre0 ← viewOfJson (← field s "pre")
       let post0 ← viewOfJson (← field s "post")
